@@ -269,6 +269,7 @@ type FuncCtx struct {
 	curRecvExpr ast.Expr
 	noName      int
 	inTypeInv   bool
+	closures    *closureInfo
 }
 
 type calleeCtx struct {
